@@ -1,6 +1,7 @@
 package neuronjson
 
 import (
+	"bytes"
 	"fmt"
 
 	"github.com/janelia-flyem/dvid/datastore"
@@ -28,50 +29,30 @@ func (d *Data) loadMetadata(ctx storage.VersionedCtx, meta Schema) (val []byte, 
 	return byteVal, nil
 }
 
-// gets metadata from either in-memory db if HEAD or from store
+// gets metadata from the versioned store.  The in-memory copies describe one version only (the
+// one last written or loaded at start-up) while every uncommitted master version counts as HEAD, so
+// they cannot answer reads: they went stale across new versions, deletions and restarts.
 func (d *Data) getMetadata(ctx storage.VersionedCtx, meta Schema) (val []byte, err error) {
-	if ctx.Head() {
-		d.metadataMu.RLock()
-		defer d.metadataMu.RUnlock()
-		if val, found := d.metadata[meta]; found {
-			return val, nil
-		} else {
-			return nil, nil
-		}
-	}
 	return d.loadMetadata(ctx, meta)
 }
 
-// get fully compiled JSON schema for use -- TODO
+// get fully compiled JSON schema for the version of the context.  The compiled schema is cached
+// together with the bytes it was compiled from and reused only for identical bytes.
 func (d *Data) getJSONSchema(ctx storage.VersionedCtx) (sch *jsonschema.Schema, err error) {
-	if ctx.Head() {
-		d.metadataMu.RLock()
-		sch = d.compiledSchema
-		d.metadataMu.RUnlock()
-		if sch != nil {
-			return
-		}
-	}
-
-	var tkey storage.TKey
-	if tkey, err = getMetadataKey(JSONSchema); err != nil {
-		return
-	}
-	var db storage.KeyValueDB
-	if db, err = datastore.GetKeyValueDB(d); err != nil {
-		return
-	}
 	var byteVal []byte
-	if byteVal, err = db.Get(ctx, tkey); err != nil {
+	if byteVal, err = d.loadMetadata(ctx, JSONSchema); err != nil {
 		return
 	}
 	if len(byteVal) == 0 {
 		return nil, fmt.Errorf("no JSON Schema available")
 	}
-	if ctx.Head() {
-		d.metadataMu.RLock()
-		d.metadata[JSONSchema] = byteVal
-		d.metadataMu.RUnlock()
+	d.metadataMu.RLock()
+	if d.compiledSchema != nil && bytes.Equal(d.metadata[JSONSchema], byteVal) {
+		sch = d.compiledSchema
+	}
+	d.metadataMu.RUnlock()
+	if sch != nil {
+		return
 	}
 
 	sch, err = jsonschema.CompileString("schema.json", string(byteVal))
@@ -81,6 +62,12 @@ func (d *Data) getJSONSchema(ctx storage.VersionedCtx) (sch *jsonschema.Schema, 
 	if sch == nil {
 		return nil, fmt.Errorf("no JSON Schema available")
 	}
+	d.metadataMu.Lock()
+	if d.metadata != nil {
+		d.metadata[JSONSchema] = byteVal
+		d.compiledSchema = sch
+	}
+	d.metadataMu.Unlock()
 	return
 }
 
@@ -114,12 +101,6 @@ func (d *Data) putMetadata(ctx storage.VersionedCtx, val []byte, meta Schema) (e
 }
 
 func (d *Data) metadataExists(ctx storage.VersionedCtx, meta Schema) (exists bool, err error) {
-	if ctx.Head() {
-		d.metadataMu.RLock()
-		defer d.metadataMu.RUnlock()
-		_, found := d.metadata[meta]
-		return found, nil
-	}
 	var tkey storage.TKey
 	if tkey, err = getMetadataKey(meta); err != nil {
 		return
